@@ -145,3 +145,27 @@ func TestBigIsLALR(t *testing.T) {
 		}
 	}
 }
+
+func TestHugeIsLALR(t *testing.T) {
+	for seed := int64(1); seed <= 6; seed++ {
+		r := rand.New(rand.NewSource(seed))
+		g := Huge(r)
+		if !Usable(g) {
+			t.Fatalf("seed %d: not usable", seed)
+		}
+		rg := g.ToRef()
+		lr0 := ref.BuildLR0(rg, 1990)
+		if lr0 == nil {
+			t.Fatalf("seed %d: too many states", seed)
+		}
+		la := ref.BuildLALR(lr0, 20000)
+		if la == nil {
+			t.Fatalf("seed %d: LALR budget", seed)
+		}
+		tab := ref.BuildTable(la)
+		if len(tab.Cells) != 0 {
+			t.Fatalf("seed %d: %d conflict cells", seed, len(tab.Cells))
+		}
+		t.Logf("seed %d: %d rules, %d states", seed, len(g.Rules), len(lr0.States))
+	}
+}
